@@ -55,6 +55,9 @@ func readRequestHeader(c net.Conn) bool {
 type upSpec struct {
 	Kind string `json:"kind"` // tcp, http, udp
 	Fate string `json:"fate"`
+	// Host: spelling of the host in the upstream address ("" = 127.0.0.1). With "localhost" a working server presents a
+	// certificate that is valid for localhost only.
+	Host string `json:"host,omitempty"`
 }
 
 type caseDesc struct {
@@ -65,6 +68,8 @@ type caseDesc struct {
 	Loss            string   `json:"loss"` // none, cut-rst, cut-fin, server-restart
 	After           int      `json:"connections_after_loss"`
 	AfterConcurrent int      `json:"concurrent_connections_right_after_loss"`
+	// Verify: the client checks server certificates (CA configured, not insecure)
+	Verify bool `json:"client_verifies_certificates,omitempty"`
 }
 
 // endpoint is one upstream candidate as built by the harness.
@@ -98,10 +103,20 @@ func (e *endpoint) close() {
 	}
 }
 
+var serverCertHost = map[int]string{} // port -> host the certificate is for (set by build)
+var serverCertMu sync.Mutex
+
 func startServer(kind string, port int, withCert bool, tgt *vlib.Target) (*serverCmd.Command, error) {
+	serverCertMu.Lock()
+	certHost := serverCertHost[port]
+	serverCertMu.Unlock()
+	good := vlib.GetPKI().ServerGood
+	if certHost != "" {
+		good = vlib.ServerCertFor("match", certHost)
+	}
 	sc := cert.ServerConfig{}
 	if withCert {
-		kp := vlib.GetPKI().ServerGood
+		kp := good
 		sc.Config = cert.Config{Certificate: kp.CertPEM, PrivateKey: kp.KeyPEM}
 	}
 	var srv server.Server
@@ -109,7 +124,7 @@ func startServer(kind string, port int, withCert bool, tgt *vlib.Target) (*serve
 	case "tcp":
 		srv = &server.SocketServer{ServerConfig: sc, Address: addr.MustParseAddress(fmt.Sprintf("tcp://127.0.0.1:%d", port))}
 	case "tcp+tls":
-		kp := vlib.GetPKI().ServerGood
+		kp := good
 		sc.Config = cert.Config{Certificate: kp.CertPEM, PrivateKey: kp.KeyPEM}
 		srv = &server.SocketServer{ServerConfig: sc, Address: addr.MustParseAddress(fmt.Sprintf("tcp+tls://127.0.0.1:%d", port))}
 	case "http", "ws":
@@ -126,18 +141,25 @@ func startServer(kind string, port int, withCert bool, tgt *vlib.Target) (*serve
 }
 
 func mkUpstream(kind string, port int) upstream.Upstream {
+	return mkUpstreamHost(kind, "127.0.0.1", port)
+}
+
+func mkUpstreamHost(kind, host string, port int) upstream.Upstream {
+	if host == "" {
+		host = "127.0.0.1"
+	}
 	switch kind {
 	case "tcp":
-		return &upstream.Socket{Address: addr.MustParseAddress(fmt.Sprintf("tcp://127.0.0.1:%d", port))}
+		return &upstream.Socket{Address: addr.MustParseAddress(fmt.Sprintf("tcp://%s:%d", host, port))}
 	case "tcp+tls":
-		return &upstream.Socket{Address: addr.MustParseAddress(fmt.Sprintf("tcp+tls://127.0.0.1:%d", port))}
+		return &upstream.Socket{Address: addr.MustParseAddress(fmt.Sprintf("tcp+tls://%s:%d", host, port))}
 	case "http":
-		return &upstream.Http{Address: addr.MustParseAddress(fmt.Sprintf("http://127.0.0.1:%d/ws/all", port))}
+		return &upstream.Http{Address: addr.MustParseAddress(fmt.Sprintf("http://%s:%d/ws/all", host, port))}
 	case "ws":
 		// the same carrier under its other documented spelling
-		return &upstream.Http{Address: addr.MustParseAddress(fmt.Sprintf("ws://127.0.0.1:%d/ws/all", port))}
+		return &upstream.Http{Address: addr.MustParseAddress(fmt.Sprintf("ws://%s:%d/ws/all", host, port))}
 	default:
-		return &upstream.Packet{Address: addr.MustParseAddress(fmt.Sprintf("udp://127.0.0.1:%d", port))}
+		return &upstream.Packet{Address: addr.MustParseAddress(fmt.Sprintf("udp://%s:%d", host, port))}
 	}
 }
 
@@ -149,6 +171,11 @@ func build(spec upSpec, idx int, mustSecure bool) (*endpoint, error) {
 		e.port = vlib.Port()
 		// a working upstream satisfies the security requirement (StartTLS); the insecure one has no certificate
 		withCert := spec.Fate == fWorks
+		if spec.Host != "" {
+			serverCertMu.Lock()
+			serverCertHost[e.port] = spec.Host
+			serverCertMu.Unlock()
+		}
 		srv, err := startServer(spec.Kind, e.port, withCert, e.tgt)
 		if err != nil {
 			e.close()
@@ -160,10 +187,10 @@ func build(spec upSpec, idx int, mustSecure bool) (*endpoint, error) {
 			e.relay = vlib.NewRelay(vlib.HostPort(e.port))
 			cport = e.relay.Port
 		}
-		e.up = mkUpstream(spec.Kind, cport)
+		e.up = mkUpstreamHost(spec.Kind, spec.Host, cport)
 	case fRefused:
 		e.port = vlib.Port() // nothing listens here
-		e.up = mkUpstream(spec.Kind, e.port)
+		e.up = mkUpstreamHost(spec.Kind, spec.Host, e.port)
 	case fSilent:
 		if spec.Kind == "udp" {
 			e.port = vlib.Port()
@@ -323,7 +350,7 @@ func runCase(d caseDesc, abandonBound time.Duration) (problem string, inconclusi
 	lport := vlib.Port()
 	al.Address = addr.MustParseAddress(fmt.Sprintf("tcp://127.0.0.1:%d", lport))
 	cli := &clientCmd.Command{
-		ClientConfig: cert.ClientConfig{InsecureSkipVerify: true},
+		ClientConfig: clientConfig(d),
 		Upstream:     upstream.Upstreams{Data: ups},
 		ListenList:   listener.Listeners{&listener.SocketListener{AbstractListener: al}},
 		Secure:       d.MustSecure,
@@ -534,12 +561,12 @@ func TestSilentUpstreams(t *testing.T) {
 	bound := 75 * time.Second
 	var cases []caseDesc
 	for _, kind := range []string{"tcp", "http", "udp", "tcp+tls", "ws"} {
-		cases = append(cases, caseDesc{Ups: []upSpec{{kind, fSilent}, {"tcp", fWorks}}, Forward: "none", K: 1, Loss: "none"})
-		cases = append(cases, caseDesc{Ups: []upSpec{{"tcp", fRefused}, {kind, fSilent}, {"http", fWorks}}, Forward: "unreachable", K: 2, Loss: "none"})
+		cases = append(cases, caseDesc{Ups: []upSpec{{Kind: kind, Fate: fSilent}, {Kind: "tcp", Fate: fWorks}}, Forward: "none", K: 1, Loss: "none"})
+		cases = append(cases, caseDesc{Ups: []upSpec{{Kind: "tcp", Fate: fRefused}, {Kind: kind, Fate: fSilent}, {Kind: "http", Fate: fWorks}}, Forward: "unreachable", K: 2, Loss: "none"})
 	}
 	for _, fate := range []string{fSilentAfterAnnounce, fSilentInStartTLS} {
-		cases = append(cases, caseDesc{Ups: []upSpec{{"tcp", fate}, {"tcp", fWorks}}, Forward: "none", K: 1, Loss: "none"})
-		cases = append(cases, caseDesc{Ups: []upSpec{{"tcp", fRefused}, {"tcp", fate}, {"http", fWorks}}, Forward: "unreachable", K: 2, Loss: "none"})
+		cases = append(cases, caseDesc{Ups: []upSpec{{Kind: "tcp", Fate: fate}, {Kind: "tcp", Fate: fWorks}}, Forward: "none", K: 1, Loss: "none"})
+		cases = append(cases, caseDesc{Ups: []upSpec{{Kind: "tcp", Fate: fRefused}, {Kind: "tcp", Fate: fate}, {Kind: "http", Fate: fWorks}}, Forward: "unreachable", K: 2, Loss: "none"})
 	}
 	problems := make([]string, len(cases))
 	inconcl := make([]bool, len(cases))
@@ -567,8 +594,8 @@ func TestSilentUpstreams(t *testing.T) {
 func TestInsecureUpstreamsAreSkipped(t *testing.T) {
 	var cases []caseDesc
 	for _, kind := range []string{"tcp", "http", "ws", "udp"} {
-		cases = append(cases, caseDesc{Ups: []upSpec{{kind, fInsecure}, {"tcp", fWorks}}, Forward: "none", MustSecure: true, K: 1, Loss: "none"})
-		cases = append(cases, caseDesc{Ups: []upSpec{{kind, fInsecure}}, Forward: "none", MustSecure: true, K: 1, Loss: "none"})
+		cases = append(cases, caseDesc{Ups: []upSpec{{Kind: kind, Fate: fInsecure}, {Kind: "tcp", Fate: fWorks}}, Forward: "none", MustSecure: true, K: 1, Loss: "none"})
+		cases = append(cases, caseDesc{Ups: []upSpec{{Kind: kind, Fate: fInsecure}}, Forward: "none", MustSecure: true, K: 1, Loss: "none"})
 	}
 	problems := make([]string, len(cases))
 	inconcl := make([]bool, len(cases))
@@ -584,6 +611,48 @@ func TestInsecureUpstreamsAreSkipped(t *testing.T) {
 			continue
 		}
 		vlib.Rec.Case(fmt.Sprintf("%+v", d), true, describe(d), func() interface{} { return d })
+		if problems[i] != "" {
+			vlib.Rec.Violation(map[string]interface{}{"property": "C16", "case": d, "problem": problems[i]})
+			t.Errorf("C16 %+v: %s", d, problems[i])
+		}
+	}
+}
+
+func clientConfig(d caseDesc) cert.ClientConfig {
+	if d.Verify {
+		return cert.ClientConfig{Config: cert.Config{CaCertificate: vlib.GetPKI().CA.CertPEM}}
+	}
+	return cert.ClientConfig{InsecureSkipVerify: true}
+}
+
+// TestFailoverWithVerification: the client checks certificates and the listed upstreams are spelled with different host
+// names; every working server presents a certificate for exactly the name it is listed under. Whatever an earlier entry
+// of the list did (refused, error status), the first working one must be settled on - what was learnt about one
+// upstream (its name, its verification mode) may not leak into the attempt on the next.
+func TestFailoverWithVerification(t *testing.T) {
+	var cases []caseDesc
+	for _, kind := range []string{"tcp+tls", "tcp"} {
+		for _, first := range []string{fRefused, fError} {
+			cases = append(cases,
+				caseDesc{Ups: []upSpec{{Kind: kind, Fate: first, Host: "127.0.0.1"}, {Kind: kind, Fate: fWorks, Host: "localhost"}}, Forward: "none", MustSecure: true, K: 1, Loss: "none", Verify: true},
+				caseDesc{Ups: []upSpec{{Kind: kind, Fate: first, Host: "localhost"}, {Kind: kind, Fate: fWorks, Host: "127.0.0.1"}}, Forward: "none", MustSecure: true, K: 2, Loss: "none", Verify: true})
+		}
+		cases = append(cases, caseDesc{Ups: []upSpec{{Kind: kind, Fate: fWorks, Host: "localhost"}}, Forward: "none", MustSecure: true, K: 1, Loss: "cut-rst", After: 2, Verify: true})
+	}
+	problems := make([]string, len(cases))
+	inconcl := make([]bool, len(cases))
+	var wg sync.WaitGroup
+	for i := range cases {
+		wg.Add(1)
+		go func(i int) { defer wg.Done(); problems[i], inconcl[i] = runCase(cases[i], 15*time.Second) }(i)
+	}
+	wg.Wait()
+	for i, d := range cases {
+		if inconcl[i] {
+			vlib.Rec.Inconclusive("setup")
+			continue
+		}
+		vlib.Rec.Case(fmt.Sprintf("%+v", d), true, append(describe(d), "client-verifies-certificates"), func() interface{} { return d })
 		if problems[i] != "" {
 			vlib.Rec.Violation(map[string]interface{}{"property": "C16", "case": d, "problem": problems[i]})
 			t.Errorf("C16 %+v: %s", d, problems[i])
